@@ -1819,8 +1819,12 @@ impl FunctionDef {
                     local_bindings.insert(fn_name.clone(), this_value);
                 }
 
-                // Preserve inputs if present in parent
-                if let Some(inputs) = bindings.get("inputs") {
+                // Preserve inputs if present in parent, unless the function captured `inputs`
+                // itself: then it keeps seeing the inputs it was defined under, whatever a
+                // caller's parameter or do-block local of that name holds
+                if !scope.contains_key("inputs")
+                    && let Some(inputs) = bindings.get("inputs")
+                {
                     local_bindings.insert(String::from("inputs"), inputs);
                 }
 
